@@ -1384,7 +1384,8 @@ func runSimHandshakeCases(w *bufio.Writer, seed uint64, n int, args []string) {
 		cases = append(cases, hsCase{Client: []string{"plain", "unil"}[i%2], Mode: []string{"0rtt", "0rtt-reject"}[(i/2)%2], EarlyVar: i / 4,
 			Faults: []fault{{Dir: 1, Idx: 0, Kind: fDelay, Arg: 700}, {Dir: 1, Idx: 1, Kind: fDelay, Arg: 700}}})
 	}
-	thorough := os.Getenv("VERIF_TIER") == "thorough"
+	// (hstrace always works on the sampled list: n handshakes, each replayed through the Coq model)
+	thorough := os.Getenv("VERIF_TIER") == "thorough" && !traceMode
 	if thorough {
 		for _, s := range scen {
 			// every single fault
